@@ -574,6 +574,11 @@ impl<T: El> SetWorld<T> {
                     }
                 }
             }
+            OpK::BorrowProbe => {
+                let ids = self.ids();
+                let n = crate::borrowcheck::set_probe(&ids, self.cfg.hk, self.cfg.seed)?;
+                obs.u64(n);
+            }
             _ => vbail!("machinery", "op {} is not a set op", op),
         }
         obs.u64(self.s.len() as u64);
